@@ -190,37 +190,44 @@ def placePoint (ds : Bytes) (fr : Nat) : Bytes :=
   else if ds.length > fr then ds.take (ds.length - fr) ++ [46] ++ ds.drop (ds.length - fr)
   else [48, 46] ++ zerosB (fr - ds.length) ++ ds
 
+/-- `10^e` for an integer `e`. -/
+def p10 (e : Int) : Rat := if e ≥ 0 then pow10 e.toNat else 1 / pow10 (-e).toNat
+
+/-- The decimal exponent `e` with `10^(e-1) ≤ v < 10^e`, found from the binary logarithm `lg`
+    (`⌊log₂ v⌋`) and at most three comparisons. -/
+def decExp (v : Rat) (lg : Int) : Int :=
+  let e0 := lg * 30103 / 100000 - 1
+  if p10 (e0 + 2) ≤ v then e0 + 3 else if p10 (e0 + 1) ≤ v then e0 + 2 else if p10 e0 ≤ v then e0 + 1 else e0
+
+/-- The `n`-digit candidates `⌊v/10^x⌋` and its successor (`x = e − n`): the one(s) that read back as
+    `mag`; if both do, the closer one, ties to the even digit. -/
+def tryDigits (mag : Nat) (v : Rat) (e : Int) (n : Nat) : Option (Nat × Int) :=
+  let x : Int := e - n
+  let sc := v / p10 x
+  let lo := sc.floor.toNat
+  let r := sc - (lo : Rat)
+  let okLo := roundMag ((lo : Rat) * p10 x) == mag
+  let okHi := roundMag (((lo + 1 : Nat) : Rat) * p10 x) == mag
+  if okLo && okHi then
+    (if r < 1/2 || (r = 1/2 && lo % 2 == 0) then some (lo, x) else some (lo + 1, x))
+  else if okLo then some (lo, x)
+  else if okHi then some (lo + 1, x)
+  else none
+
+/-- Try `n, n+1, …` digits with the candidate function `t`. -/
+def searchBy (t : Nat → Option (Nat × Int)) : Nat → Nat → Nat × Int
+  | 0, _ => (0, 0)
+  | fuel + 1, n =>
+    match t n with
+    | some r => r
+    | none => searchBy t fuel (n + 1)
+
 /-- Shortest decimal `c·10^x` that rounds to the finite positive magnitude `mag`; among equally
     short ones the closest to the exact value, ties to the even digit. -/
 def shortest (mag : Nat) : Nat × Int :=
   let v := magVal mag
-  -- E with 10^(E-1) ≤ v < 10^E, starting from the binary logarithm
   let lg : Int := ((magSig mag).log2 : Int) + magScale mag - 1074
-  let approxE : Int := lg * 30103 / 100000
-  let p10 (e : Int) : Rat := if e ≥ 0 then pow10 e.toNat else 1 / pow10 (-e).toNat
-  let ge10 (e : Int) : Bool := decide (p10 e ≤ v)
-  let e0 := approxE - 1
-  let e : Int := if ge10 (e0 + 2) then e0 + 3 else if ge10 (e0 + 1) then e0 + 2 else if ge10 e0 then e0 + 1 else e0
-  let try_ (n : Nat) : Option (Nat × Int) :=
-    let x : Int := e - n
-    let sc := v / p10 x
-    let lo := sc.floor.toNat
-    let r := sc - (lo : Rat)
-    let back (c : Nat) : Bool := roundMag ((c : Rat) * p10 x) == mag
-    let okLo := back lo
-    let okHi := back (lo + 1)
-    if okLo && okHi then
-      (if r < 1/2 || (r = 1/2 && lo % 2 == 0) then some (lo, x) else some (lo + 1, x))
-    else if okLo then some (lo, x)
-    else if okHi then some (lo + 1, x)
-    else none
-  let rec search : Nat → Nat → Nat × Int
-    | 0, _ => (0, 0)
-    | fuel + 1, n =>
-      match try_ n with
-      | some r => r
-      | none => search fuel (n + 1)
-  search 18 1
+  searchBy (tryDigits mag v (decExp v lg)) 18 1
 
 def stripZeros : Nat → Int → Nat → Nat × Int
   | 0, x, c => (c, x)
